@@ -26,6 +26,7 @@ def specs_for(ctx):
     specs += opskit.merge_specs(ctx.rng, ctx.n(12, 120))
     specs += opskit.boundary_selection_specs(ctx.rng, ctx.n(40, 400))
     specs += opskit.mutation_after_speciation_specs(ctx.rng, ctx.n(15, 150))
+    specs += opskit.persistent_specs(ctx.rng, ctx.n(40, 400))  # one operator object per kind for the whole sequence, 0 < p < 1
     for _ in range(ctx.n(150, 3000)):
         specs.append(opskit.random_spec(ctx.rng))
     return specs
